@@ -61,7 +61,7 @@ RULE = ('target cases: class shape or callable kind (40 kinds, generated as sour
         'product on one rich signature (exhaustive), all forms x APIs on four kinds, every '
         'invalid-registration fault x API x target x interactive flag, every interactive exit '
         'kind x API x API. invalid cases: 0-2 prior registrations, then one faulty registration '
-        '(10 bad names / modules incl. two that end in a newline, a fresh object under an existing full name via 3 spellings, '
+        '(11 bad names / modules incl. two that end in a newline, an invalid module also combined with a valid dotted name, a fresh object under an existing full name via 3 spellings, '
         'an object -- or Gin\'s wrapper of it -- that is already registered under another name '
         'put under a full name held by a different object, unknown allow/deny names, both '
         'lists -- the three list faults also as a SECOND registration of an object that is already '
@@ -812,6 +812,7 @@ INVALID_TARGETS = ['fn', 'init', 'new', 'meta', 'namedtuple', 'slots', 'callobj'
 # The first two end in a newline (e.g. an unstripped line of a file): a pattern anchored with `$`
 # lets them through, so they can get further into the registration than the other bad names.
 BAD_NAMES = [NM + '\n', DOTTED + '\n', '', '1abc', 'a-b', 'a..b', '.a', 'a.', 'a b', 's/a']
+BAD_MODULES = BAD_NAMES + ['not.0k']
 # Finding fixed in /repo by 28a88c8 (see _known_newline_name_after_decoration): an UNDOTTED name with a trailing
 # newline is refused only after the decoration step, i.e. after gin.configurable has wrapped the
 # class's constructor in place and after register / external_configurable have renamed (and then
@@ -931,10 +932,15 @@ def check_invalid(case):
     if name.endswith('\n'):
       labels.add('bad-name:trailing-newline')
   elif fault == 'bad_module':
-    module = BAD_NAMES[variant % len(BAD_NAMES)]
+    module = BAD_MODULES[variant % len(BAD_MODULES)]
     if module.endswith('\n'):
       labels.add('bad-module:trailing-newline')
-    name = NM if not has_name or (variant // len(BAD_NAMES)) % 2 == 0 else None
+    # the invalid module is combined with an undotted name, with the object's own name, and
+    # with a valid DOTTED name (which already carries module components of its own)
+    name_choice = (variant // len(BAD_MODULES)) % 3
+    name = 'lib.' + NM if name_choice == 2 else (NM if not has_name or name_choice == 0 else None)
+    if name_choice == 2:
+      labels.add('bad-module:with-dotted-name')
   elif fault == 'duplicate':
     # an object of the same kind (a different object) is already registered as pk.mod.nm,
     # through one of three spellings of that full name; the newcomer uses another one
@@ -1530,10 +1536,15 @@ def sweep_invalid(tier):
     # every variant of every fault for plain functions (all APIs) and for the metaclass shape
     # through external_configurable; three variants per fault for the rest
     full = target == 'fn' or (target == 'meta' and api == 'external') or tier == 'thorough'
-    nvar = ({'bad_name': 2 * len(BAD_NAMES), 'bad_module': 2 * len(BAD_NAMES), 'duplicate': 27,
+    nvar = ({'bad_name': 2 * len(BAD_NAMES), 'bad_module': 3 * len(BAD_MODULES), 'duplicate': 27,
              'duplicate_registered': 54}.get(fault, 6) if full else
             (18 if fault == 'duplicate_registered' else 3))
-    for variant in range(nvar):
+    variants = list(range(nvar))
+    if fault == 'bad_module' and not full:
+      # dotted name + explicit invalid module: '', 'not.0k', 'pk.sub.nm\n', 'a..b'
+      variants += [2 * len(BAD_MODULES) + BAD_MODULES.index(m)
+                   for m in ('', 'not.0k', DOTTED + '\n', 'a..b')]
+    for variant in variants:
       for interactive in ((False, True) if fault not in DUP_FAULTS and variant < 2 else (False,)):
         cases.append({'kind': 'invalid', 'target': target, 'api': api, 'fault': fault,
                       'variant': variant, 'prior': 2, 'interactive': interactive, 'second': False})
